@@ -110,7 +110,13 @@ func calculateExecutionType(
 
 	switch methodT.GetType() {
 	case base.BLOCK:
-		return methodT.GetVal().(*base.T)
+		// a block type carries its result; a bare block value does not
+		blockResultT, ok := methodT.GetVal().(*base.T)
+		if !ok || blockResultT == nil {
+			return base.MakeUntyped()
+		}
+
+		return blockResultT
 
 	case base.UNION:
 		var newVariants []base.T
